@@ -26,6 +26,14 @@ Definition slot_grow (sl : slot) (j : Z) : slot :=
   let '(id, bits, init, se, sg, im) := sl in
   (id, bits, init, se, match grow_seg [sg] 0 j with g :: _ => g | [] => sg end, im).
 
+(* the publisher continues in the next term: once the image has consumed its term to the end (position = start of term
+   n + 1) the slot's segment is replaced by a segment of term n + 1 starting at offset 0 (the image cannot tell whether
+   those frames were written before or after it left term n - it never reads ahead of its position); otherwise nothing happens *)
+Definition slot_roll (sl : slot) (vis : Z) (claim : bool) (ss : list fspec) : slot :=
+  let '(id, bits, init, se, sg, im) := sl in
+  if im_pos im =? (seg_n sg + 1) * 2 ^ bits
+  then (id, bits, init, se, build_seg init se (seg_n sg + 1, 0, vis, claim, ss), im) else sl.
+
 Fixpoint build_slots (id : Z) (ss : list sslot) : list slot :=
   match ss with
   | [] => []
@@ -70,7 +78,8 @@ Inductive sop :=
 | SBlock (bl : Z)
 | SGrow (slot j : Z)
 | SAdd (slot : Z)
-| SRemove (slot : Z).
+| SRemove (slot : Z)
+| SRoll (slot vis : Z) (claim : bool) (ss : list fspec).
 
 (* observations: raw fragment = (offset, length, flags, Header::position(), session, payload hash) as in C05;
    a block = (offset, length, -1, Ok term id, session, 0); message = (session, length, hash) *)
@@ -132,6 +141,10 @@ Definition sstep (m : mode) (nslots : nat) (st : sstate) (o : sop) : sobs * ssta
   | SGrow id j =>
       let st' := (map_slot id (fun sl => slot_grow sl j) absent,
                   mkSub (map_slot id (fun sl => slot_grow sl j) (s_images s)) (s_rr s), bs) in
+      ((Ok 0, [], [], positions nslots 0 (all_slots st')), st')
+  | SRoll id vis claim ss =>
+      let st' := (map_slot id (fun sl => slot_roll sl vis claim ss) absent,
+                  mkSub (map_slot id (fun sl => slot_roll sl vis claim ss) (s_images s)) (s_rr s), bs) in
       ((Ok 0, [], [], positions nslots 0 (all_slots st')), st')
   | SAdd id =>
       let st' := match find_slot id absent with
